@@ -4,7 +4,6 @@ import (
 	"bytes"
 	"errors"
 	"fmt"
-	"io"
 	"os"
 	"os/exec"
 	"path/filepath"
@@ -295,29 +294,25 @@ func RunCommand(cmdArgs []string, runDir string) (map[string]interface{}, error)
 		cmd.Dir = runDir
 	}
 
-	stderrPipe, err := cmd.StderrPipe()
-	if err != nil {
-		return nil, err
-	}
-	stdoutPipe, err := cmd.StdoutPipe()
-	if err != nil {
-		return nil, err
-	}
+	// Both streams are read at the same time (by the goroutines that Start
+	// creates for them), and Wait returns when all output has been copied. If
+	// stdout was read to its end before stderr, a command that writes more to
+	// stderr than fits into the pipe would block forever, and we with it.
+	var stdout, stderr bytes.Buffer
+	cmd.Stdout = &stdout
+	cmd.Stderr = &stderr
 
 	if err := cmd.Start(); err != nil {
 		return nil, err
 	}
 
 	// TODO: duplicate stdout, stderr
-	stdout, _ := io.ReadAll(stdoutPipe)
-	stderr, _ := io.ReadAll(stderrPipe)
-
 	retVal := waitErrToExitCode(cmd.Wait())
 
 	return map[string]interface{}{
 		"return-value": float64(retVal),
-		"stdout":       string(stdout),
-		"stderr":       string(stderr),
+		"stdout":       stdout.String(),
+		"stderr":       stderr.String(),
 	}, nil
 }
 
